@@ -35,6 +35,7 @@ type profile struct {
 	macros        []string
 	macroPct      int
 	bodyLens      []int
+	faultCalls    []string // store calls that may be given a fault (default: get, set, delete)
 	aes           []string
 	adversarial   bool // C06 key sets
 	ageChoices    bool
@@ -101,6 +102,8 @@ func genAdversarialKeys(t *rapid.T, n int) []Key {
 		base, base + "/", base + "?a=1", base + "?a=2", base + "?a=1&b=2", base + "?b=2&a=1", base + "?", base + "?a=1&",
 		base + "x", base + "X", base[:len(base)-1], "/" + base, base + "%20", base + "?a=1#f", base + "//",
 		base + "/.", base + "?a=%31", "/b.test" + base, base + "?a=1&a=1",
+		// the same path in other percent-encodings: different request-URIs, different keys, and the upstream must see each as sent
+		base + "%2Fz", base + "/z", base + "%2fz", base + "/%7Ez", base + "/~z", base + "/%41", base + "/A",
 		long("1"), long("2"), long("3"), long("7"),
 	}
 	var keys []Key
@@ -514,7 +517,11 @@ func genScenario(p *profile) func(t *rapid.T) Scenario {
 			case 4:
 				g.add(Op{K: "purge", Key: g.key(), Cache: rapid.SampledFrom([]string{"", "c1", "c1", "c2", "nope"}).Draw(t, "cache")})
 			case 5:
-				call := rapid.SampledFrom([]string{"get", "set", "set", "delete"}).Draw(t, "call")
+				calls := []string{"get", "set", "set", "delete"}
+				if len(p.faultCalls) > 0 {
+					calls = p.faultCalls
+				}
+				call := rapid.SampledFrom(calls).Draw(t, "call")
 				f := "error"
 				if call == "get" {
 					f = g.getFault()
@@ -615,7 +622,7 @@ func TestC01(t *testing.T) {
 	installWedge(t, "C01")
 	p := &profile{prop: "C01", minKeys: 1, maxKeys: 3, methods: []string{"GET", "GET", "GET", "HEAD"}, upstreamEnc: true, reloadW: 3, cancelW: 3,
 		stores: []string{""}, cacheSizes: []int{1000, 1000, 100, 1001, 2000}, hfps: []int{0, 2}, proxyTimeouts: []int{0},
-		lifetimes: []int{1, 2, 3, 5}, outcomes: []string{"cacheable", "cacheable", "cacheable", "cacheable", "uncacheable", "transport_error"},
+		lifetimes: []int{1, 2, 3, 5}, outcomes: []string{"cacheable", "cacheable", "cacheable", "cacheable", "uncacheable", "transport_error", "body_abort"},
 		parkPct: 30, w: [6]int{40, 25, 15, 12, 2, 0}, minOps: 4, maxOps: 40,
 		macros: []string{"burst", "wokenExpiry", "registeredPark", "epochs", "enterExpiry"}, macroPct: 14,
 		bodyLens: []int{0, 0, 40, 3000}, aes: []string{"", "gzip", "br", "gzip, br"}}
@@ -713,10 +720,10 @@ func TestC04Store(t *testing.T) {
 
 func TestC18(t *testing.T) {
 	installWedge(t, "C18")
-	p := &profile{prop: "C18", minKeys: 2, maxKeys: 3, methods: []string{"GET", "GET", "GET", "HEAD"}, reloadW: 4, twins: true,
-		twoServers: 70, stores: []string{"", "mem", "mem", "lazy"}, cacheSizes: []int{1000, 1000, 100, 1001, 2000}, hfps: []int{0, 2}, proxyTimeouts: []int{0},
+	p := &profile{prop: "C18", faultCalls: []string{"delete"}, minKeys: 2, maxKeys: 3, methods: []string{"GET", "GET", "GET", "HEAD"}, reloadW: 4, twins: true,
+		twoServers: 70, stores: []string{"", "mem", "mem", "lazy", "fault"}, cacheSizes: []int{1000, 1000, 100, 1001, 2000}, hfps: []int{0, 2}, proxyTimeouts: []int{0},
 		lifetimes: []int{2, 5, 60}, outcomes: []string{"cacheable", "cacheable", "cacheable", "uncacheable", "transport_error"},
-		parkPct: 20, w: [6]int{40, 25, 8, 10, 17, 0}, minOps: 6, maxOps: 45,
+		parkPct: 20, w: [6]int{40, 25, 8, 10, 17, 4}, minOps: 6, maxOps: 45,
 		macros: []string{"purgeRace", "purgeFresh"}, macroPct: 15,
 		bodyLens: []int{0, 40}, aes: []string{"", "gzip"}}
 	vstat.Run(t, "C18", "sim", genScenario(p), execSim(t, "C18", func(s *modelStats, tr *trace) bool {
@@ -755,7 +762,7 @@ func TestC08Sim(t *testing.T) {
 		stores: []string{"mem", "mem", "lazy"}, cacheSizes: []int{8, 8, 16}, hfps: []int{0, 2, 5}, proxyTimeouts: []int{0},
 		lifetimes: []int{2, 5, 60}, outcomes: []string{"cacheable", "cacheable", "cacheable", "uncacheable"},
 		parkPct: 5, w: [6]int{50, 32, 12, 3, 3, 0}, minOps: 12, maxOps: 120,
-		macros: []string{"evictReload"}, macroPct: 10, ageChoices: false,
+		macros: []string{"evictReload"}, macroPct: 10, ageChoices: true,
 		bodyLens: []int{0, 40, 3000}, aes: []string{"", "gzip", "br"}}
 	vstat.Run(t, "C08", "sim", genScenario(p), execSim(t, "C08", func(s *modelStats, tr *trace) bool {
 		return s.ReloadHits >= 1
